@@ -202,10 +202,12 @@ pub fn check_tokens(toks: &[Tok], l: &mut Local) -> Outcome {
         _ => {},
     }
     // the same sequence through the read-only evaluator: every element is still evaluated in order
-    // (an earlier failing element fails the chain; an assignment is reported as ContextNotMutable)
+    // (an earlier failing element fails the chain)
+    // — only for sequences without assignment operators: what the read-only evaluator reports for
+    // an expression that contains one (and in which order) is C11's subject
     let mut model_imm = Ctx::new(Kind::HashMap);
     let (exp_i, _, _) = ref_run(&expected, &mut model_imm, false, matrix::unit());
-    if !exp_i.as_ref().err().map_or(false, |e| e.is_unclaimed()) {
+    if !toks.iter().any(|t| t.is_assignment()) && !exp_i.as_ref().err().map_or(false, |e| e.is_unclaimed()) {
         let fresh = build_hashmap(&Ctx::new(Kind::HashMap), &log);
         if let Ok(got_i) = vcore::catch(|| map_result(&tree.eval_with_context(&fresh))) {
             if !outcome_matches(&exp_i, &got_i) {
